@@ -370,6 +370,9 @@ func extractC11() *lean {
 		name string
 		fn   *ast.FuncDecl
 	}{
+		{"revokeStmts", c11Method(issF, "StatusList2021", "Revoke")},
+		{"credentialStmts", c11Method(issF, "StatusList2021", "Credential")},
+		{"updateCredentialStmts", c11Method(issF, "StatusList2021", "updateCredential")},
 		{"issuerRevoke", c11Method(iF, "issuer", "Revoke")},
 		{"issuerRevokeStatusList", c11Method(iF, "issuer", "revokeStatusList")},
 		{"issuerRevokeDIDNuts", c11Method(iF, "issuer", "revokeDIDNuts")},
